@@ -1,11 +1,13 @@
-// c12 harness, stage "scan": ties Model/Oci.v's abstract tar stream (members =
-// header blocks + size, reader position after Next() = end of the header blocks)
-// and scan_offset (the header scan loop of BuildIndex, translated by goextract,
+// c12 harness, stage "scan": ties Model/Oci.v's tar stream of raw header records
+// (kind from the type flag + size field; rd_next = archive/tar's position bookkeeping
+// per record kind) and scan_offset (the header scan loop of BuildIndex, translated by goextract,
 // followed by the translated offset arithmetic) to the real thing:
 //
 //	kind "stdlib": archives written by archive/tar in USTAR / PAX / GNU format
 //	  (last member of size 0, 1, 511, 512, 513, …; long names; PAX records before
-//	  the last member; symlinks and directories) are walked block by block by a
+//	  the last member; symlinks and directories; PAX global headers; hand-patched
+//	  archives: a symlink whose size field is not zero, a dangling extension
+//	  header) are walked block by block by a
 //	  raw parser of this file (typeflag and octal size fields only) and read by
 //	  the standard reader placed directly on the *os.File exactly as BuildIndex
 //	  does (tr.Next(); f.Seek(0, io.SeekCurrent); hdr.Size);
@@ -36,11 +38,11 @@ import (
 )
 
 type rawMember struct {
-	Name      string `json:"name"`
-	Type      string `json:"typeflag"`
-	HdrBlocks int64  `json:"header_blocks"`
-	Size      int64  `json:"size"`
-	Start     int64  `json:"start"`
+	Name  string `json:"name"`
+	Type  string `json:"typeflag"`
+	Kind  string `json:"kind"` // KFile | KHeaderOnly | KExt | KGlobal
+	Size  int64  `json:"size"`
+	Start int64  `json:"start"`
 }
 
 func octal(b []byte) (int64, bool) {
@@ -71,47 +73,42 @@ func isZeroBlock(b []byte) bool {
 	return true
 }
 
-// rawWalk reads 512-byte header blocks only: extension headers ('x', 'g', 'L',
-// 'K') and their data are counted into the header of the member that follows.
-// Returns the members and the offset of the first all-zero block.
+// rawWalk reads 512-byte header blocks only and classifies each record by its
+// type flag: extension records ('x', 'L', 'K'), global headers ('g'),
+// header-only members ('1'..'6': no data whatever the size field says) and
+// members with data. Returns the records and the offset of the first all-zero block.
 func rawWalk(raw []byte) (ms []rawMember, end int64, err error) {
 	off := int64(0)
 	for {
-		start := off
-		hb := int64(0)
-		for {
-			if off+512 > int64(len(raw)) {
-				return ms, off, fmt.Errorf("truncated at %d", off)
-			}
-			h := raw[off : off+512]
-			if isZeroBlock(h) {
-				if hb != 0 {
-					return ms, off, fmt.Errorf("extension header without a member at %d", off)
-				}
-				return ms, off, nil
-			}
-			sz, ok := octal(h[124:136])
-			if !ok {
-				return ms, off, fmt.Errorf("bad size field at %d", off)
-			}
-			tf := h[156]
-			off += 512
-			hb++
-			if tf == 'x' || tf == 'g' || tf == 'L' || tf == 'K' {
-				n := (sz + 511) / 512
-				off += n * 512
-				hb += n
-				continue
-			}
-			name := strings.TrimRight(string(h[0:100]), "\x00")
-			data := sz
-			if tf == '1' || tf == '2' || tf == '3' || tf == '4' || tf == '5' || tf == '6' {
-				data = 0
-			}
-			ms = append(ms, rawMember{Name: name, Type: string(rune(tf)), HdrBlocks: hb, Size: sz, Start: start})
-			off += (data + 511) / 512 * 512
-			break
+		if off+512 > int64(len(raw)) {
+			return ms, off, fmt.Errorf("truncated at %d", off)
 		}
+		h := raw[off : off+512]
+		if isZeroBlock(h) {
+			return ms, off, nil
+		}
+		sz, ok := octal(h[124:136])
+		if !ok {
+			return ms, off, fmt.Errorf("bad size field at %d", off)
+		}
+		tf := h[156]
+		m := rawMember{Name: strings.TrimRight(string(h[0:100]), "\x00"), Type: string(rune(tf)), Size: sz, Start: off}
+		data := sz
+		switch tf {
+		case 'x', 'L', 'K':
+			m.Kind = "KExt"
+		case 'g':
+			m.Kind = "KGlobal"
+		case '1', '2', '3', '4', '5', '6':
+			m.Kind = "KHeaderOnly"
+			data = 0
+		case 'S':
+			return ms, off, fmt.Errorf("sparse member at %d: out of scope", off)
+		default:
+			m.Kind = "KFile"
+		}
+		ms = append(ms, m)
+		off += 512 + (data+511)/512*512
 	}
 }
 
@@ -156,13 +153,13 @@ type scanDesc struct {
 func scanTerm(d *scanDesc) string {
 	ms := make([]string, len(d.Members))
 	for i, m := range d.Members {
-		ms[i] = fmt.Sprintf("{| m_hdr := %s; m_size := %s |}", gal.Z(m.HdrBlocks), gal.Z(m.Size))
+		ms[i] = fmt.Sprintf("{| r_kind := %s; r_size := %s |}", m.Kind, gal.Z(m.Size))
 	}
 	ts := make([]string, len(d.Trace))
 	for i, t := range d.Trace {
 		ts[i] = gal.Pair(gal.Z(t.Pos), gal.Z(t.Size))
 	}
-	return fmt.Sprintf("{| sc_members := %s; sc_trace := %s; sc_target := %s |}", gal.List(ms), gal.List(ts), gal.Z(d.Target))
+	return fmt.Sprintf("{| sc_records := %s; sc_trace := %s; sc_target := %s |}", gal.List(ms), gal.List(ts), gal.Z(d.Target))
 }
 
 type tarSpec struct {
@@ -194,6 +191,9 @@ func writeTar(path string, specs []tarSpec) error {
 			h.Linkname = s.link
 			h.Size = 0
 		}
+		if s.typ == tar.TypeXGlobalHeader {
+			h = &tar.Header{Typeflag: tar.TypeXGlobalHeader, Name: s.name, PAXRecords: s.pax, Format: tar.FormatPAX}
+		}
 		if err := tw.WriteHeader(h); err != nil {
 			return fmt.Errorf("%s: %w", s.name, err)
 		}
@@ -216,6 +216,7 @@ func scanStage(dir string, seed uint64, tier string) error {
 	long150 := strings.Repeat("d/", 60) + strings.Repeat("n", 30)  // fits ustar's prefix/name split
 	long300 := strings.Repeat("e/", 120) + strings.Repeat("m", 60) // needs a PAX path record or a GNU 'L' header
 	n := 0
+	var patch func([]byte) ([]byte, error) // applied to the bytes archive/tar wrote, then reset
 	addStd := func(specs []tarSpec, note, class string) error {
 		n++
 		p := filepath.Join(tmp, fmt.Sprintf("a%d.tar", n))
@@ -226,12 +227,21 @@ func scanStage(dir string, seed uint64, tier string) error {
 		if err != nil {
 			return err
 		}
+		if patch != nil {
+			if raw, err = patch(raw); err != nil {
+				return fmt.Errorf("%s: patch: %w", note, err)
+			}
+			patch = nil
+			if err := os.WriteFile(p, raw, 0o644); err != nil {
+				return err
+			}
+		}
 		ms, end, err := rawWalk(raw)
 		if err != nil {
 			return fmt.Errorf("%s: raw walk: %w", note, err)
 		}
-		if end+1024 != int64(len(raw)) || !isZeroBlock(raw[end:]) {
-			return fmt.Errorf("%s: archive/tar wrote an unexpected end of archive (%d of %d)", note, end, len(raw))
+		if end+1024 > int64(len(raw)) || !isZeroBlock(raw[end:]) {
+			return fmt.Errorf("%s: unexpected end of archive (%d of %d)", note, end, len(raw))
 		}
 		tr, err := realTrace(p)
 		if err != nil {
@@ -276,6 +286,62 @@ func scanStage(dir string, seed uint64, tier string) error {
 		if err := addStd(s, fmt.Sprintf("extension headers %d", i), "stdlib/extension-headers"); err != nil {
 			return err
 		}
+	}
+	// PAX global headers: returned by Next() as entries of their own, after their data
+	glob := func(n int) tarSpec {
+		return tarSpec{name: "pax_global_header", typ: tar.TypeXGlobalHeader, pax: map[string]string{"comment": strings.Repeat("c", n)}}
+	}
+	for i, s := range [][]tarSpec{
+		{glob(10), reg("manifest.json", 512)},
+		{reg("a", 100), glob(600), reg("manifest.json", 1)},
+		{reg("a", 100), glob(10)},
+		{glob(497), glob(498), {name: long300, size: 3, format: tar.FormatPAX}},
+	} {
+		if err := addStd(s, fmt.Sprintf("global header %d", i), "stdlib/global-header"); err != nil {
+			return err
+		}
+	}
+	// hand-patched: a symlink whose size field says 100 (archive/tar accepts it: header-only
+	// types have no data, but hdr.Size reports the field), in the middle and as the LAST
+	// member (outside the envelope of c12_append_offset_scan: EndsOk fails)
+	setSize := func(raw []byte, name string, size int64) ([]byte, error) {
+		for off := 0; off+512 <= len(raw); off += 512 {
+			h := raw[off : off+512]
+			if strings.TrimRight(string(h[0:100]), "\x00") != name {
+				continue
+			}
+			copy(h[124:136], fmt.Sprintf("%011o\x00", size))
+			copy(h[148:156], "        ")
+			sum := 0
+			for _, c := range h {
+				sum += int(c)
+			}
+			copy(h[148:156], fmt.Sprintf("%06o\x00 ", sum))
+			return raw, nil
+		}
+		return nil, fmt.Errorf("no header named %q", name)
+	}
+	patch = func(raw []byte) ([]byte, error) { return setSize(raw, "lnk", 100) }
+	if err := addStd([]tarSpec{reg("a", 10), {name: "lnk", typ: tar.TypeSymlink, link: "a"}, reg("manifest.json", 512)}, "symlink with size field 100 in the middle", "stdlib/header-only-with-size"); err != nil {
+		return err
+	}
+	patch = func(raw []byte) ([]byte, error) { return setSize(raw, "lnk", 100) }
+	if err := addStd([]tarSpec{reg("a", 10), {name: "lnk", typ: tar.TypeSymlink, link: "a"}}, "LAST member is a symlink with size field 100", "stdlib/outside-envelope"); err != nil {
+		return err
+	}
+	// hand-patched: the last member's own header and data are cut away, its PAX extension
+	// record stays: a dangling extension header (outside the envelope)
+	patch = func(raw []byte) ([]byte, error) {
+		ms, end, err := rawWalk(raw)
+		if err != nil || len(ms) < 2 || ms[len(ms)-2].Kind != "KExt" {
+			return nil, fmt.Errorf("unexpected layout")
+		}
+		last := ms[len(ms)-1]
+		out := append([]byte{}, raw[:last.Start]...)
+		return append(out, make([]byte, int64(len(raw))-end)...), nil
+	}
+	if err := addStd([]tarSpec{reg("a", 10), {name: long300, size: 5, format: tar.FormatPAX}}, "dangling PAX extension header", "stdlib/outside-envelope"); err != nil {
+		return err
 	}
 	// random member lists
 	r := gal.NewRand(seed + 71)
@@ -341,11 +407,17 @@ func scanStage(dir string, seed uint64, tier string) error {
 			return nil
 		}
 		tr, err := realTrace(out)
-		if err != nil || len(tr) < k+1 {
+		nt := 0
+		for _, m := range ms[:k+1] {
+			if m.Kind != "KExt" {
+				nt++
+			}
+		}
+		if err != nil || len(tr) < nt {
 			implViolation("scan-bundle-unreadable", map[string]any{"archs": archs, "tags": tags, "error": fmt.Sprint(err)})
 			return nil
 		}
-		d := &scanDesc{Kind: "bundle", Note: fmt.Sprintf("archs %v tags %v", archs, tags), Members: ms[:k+1], Trace: tr[:k+1], Target: ms[k+1].Start, FileLen: int64(len(raw))}
+		d := &scanDesc{Kind: "bundle", Note: fmt.Sprintf("archs %v tags %v", archs, tags), Members: ms[:k+1], Trace: tr[:nt], Target: ms[k+1].Start, FileLen: int64(len(raw))}
 		w.Add(gal.Case{Term: scanTerm(d), Desc: d, Class: fmt.Sprintf("bundle/archs=%d/residue=%s", len(archs), resClass(ms[k].Size%512))})
 		return nil
 	}
